@@ -20,7 +20,7 @@ TECHNIQUE = "runtime monitoring: offline cross-check of recorded mapper results 
 
 def gen_cases(tier, seed):
     rnd = random.Random(f"C17-{seed}")
-    n = 24 if tier == "quick" else 240
+    n = 24 if tier == "quick" else 160
     cases = []
     for i in range(n):
         d = gs.gen_spec(rnd, rnd.choice(["mm1", "mm1", "mv1", "chain2", "fanin2", "mvchain2"]),
